@@ -301,6 +301,8 @@ def checkC25 (kind : String) (pre post : State) : List Fail :=
   fails (kind = "reward" || pre.supply - post.supply == total) "slash-burn-mismatch" s!"removed={total} supply {pre.supply} -> {post.supply}" ++
   fails (!(kind = "slash" || kind = "begin") || pre.pool - post.pool == total) "slash-pool-mismatch" s!"removed={total} pool {pre.pool} -> {post.pool}" ++
   fails (post.vals.all fun p => p.2.tokens ≥ 0) "negative-stake" "" ++
+  fails (post.signInfo.all fun p => p.2.missed ≥ 0) "missed-counter-negative"
+    s!"{(post.signInfo.filter fun p => p.2.missed < 0).map fun p => (rB p.1, p.2.missed)}" ++
   fails (burned.all fun b => match aget post.vals b.1 with
       | some v => v.tokens ≥ post.params.minStake || (v.jailed && b.1 ∈ post.waiting)
       | none => true) "below-min-not-jailed-and-queued" s!"{burned.map fun b => rB b.1}" ++
